@@ -57,7 +57,13 @@ static std::string norm_text(const std::string& t, int opsize, int addrbits) {
   if (!w.empty()) words.push_back(w);
   std::vector<std::string> pre, rest;
   size_t wi = 0;
-  for (; wi < words.size() && is_prefix_word(words[wi]); wi++) if (words[wi] != ";") pre.push_back(words[wi]);
+  // F3 is printed as rep / repe / repz / xrelease and F2 as repne / repnz / xacquire depending on the decoder and on the prefix order
+  auto canon = [](const std::string& p) -> std::string {
+    if (p == "rep" || p == "repe" || p == "repz" || p == "xrelease") return "<f3>";
+    if (p == "repne" || p == "repnz" || p == "xacquire") return "<f2>";
+    return p;
+  };
+  for (; wi < words.size() && is_prefix_word(words[wi]); wi++) if (words[wi] != ";") pre.push_back(canon(words[wi]));
   for (; wi < words.size(); wi++) rest.push_back(words[wi]);
   std::sort(pre.begin(), pre.end());
   std::string r;
